@@ -115,6 +115,24 @@ def adapt(fr, ks, kt):
 META = []  # (D, is_torus) of every input handed to the model of the current rollout
 
 
+def flag_module(fn):
+    """the same model as an eqx.Module carrying an `inference` switch that is OFF and changes the prediction when
+    ON: the rollout has to apply the model it was given, not a copy put into another mode"""
+    import equinox as eqx
+
+    class Flagged(eqx.Module):
+        inference: bool
+        fn: object = eqx.field(static=True)
+
+        def __call__(self, x, aux):
+            out, aux2 = self.fn(x, aux)
+            if self.inference:
+                out = type(out)({k: v + 1.0 for k, v in out.items()}, out.D, out.is_torus)
+            return out, aux2
+
+    return Flagged(False, fn)
+
+
 def make_model(geom, spec, seen=None):
     """callable (x: MultiImage, aux) -> (MultiImage, aux'); records every input it is handed"""
 
@@ -294,7 +312,11 @@ def check_rollout(ctx: Ctx, case, count=True):
     del META[:]
     out_meta = None
     try:
-        out_mi, aux = ml.autoregressive_map(make_model(geom, spec, seen), to_mi(geom, x_items), s0, past, n, dict(consts))
+        mdl = make_model(geom, spec, seen)
+        if (past + 2 * n + len(x_items)) % 3 == 0:
+            mdl = flag_module(mdl)
+            ctx.hist("model_with_inference_switch", 1)
+        out_mi, aux = ml.autoregressive_map(mdl, to_mi(geom, x_items), s0, past, n, dict(consts))
         impl_out, impl_s = from_mi(out_mi), int(aux)
         out_meta = meta_of(out_mi)
     except Exception as e:  # noqa: BLE001
@@ -405,6 +427,28 @@ def check_step(ctx: Ctx, case, count=True):
                 else "new input is not `per channel window[1:] + [prediction]` with the constants in place")
         ctx.violation("oracle", "ml.autoregressive_step: " + what, dict(case, impl=wire(impl), expected=wire(orc)))
         return
+    if (past + 3 * len(x_items)) % 4 == 1:
+        # the window stored in a narrower dtype (int32) than the prediction (float32, half-integers): the fed-back
+        # value is the prediction itself
+        import jax.numpy as jnp
+        try:
+            xi = geom.MultiImage({k: jnp.asarray(np.asarray(v), dtype=jnp.int32) for k, v in x_items}, D, CUR["torus"])
+            pf = geom.MultiImage({k: jnp.asarray(np.asarray(v) + 0.5, dtype=jnp.float32) for k, v in p_items}, D, CUR["torus"])
+            a2 = [xi, pf, past, dict(consts)] + ([future] if "future" in case else [])
+            got = {(int(k[0]), int(k[1])): np.rint(2 * np.asarray(v, dtype=np.float64)).astype(np.int64)
+                   for k, v in ml.autoregressive_step(*a2).items()}
+            # expected: the integer oracle with doubled values, predictions doubled + 1
+            want = dict(oracle_step([(k, 2 * np.asarray(v)) for k, v in x_items],
+                                    {k: 2 * np.asarray(v) + 1 for k, v in p_items}, past, consts))
+            ctx.hist("int32_window_float_prediction", 1)
+            if set(got) != set(want) or any(got[k].shape != want[k].shape or not np.array_equal(got[k], want[k]) for k in want):
+                ctx.violation("oracle", "ml.autoregressive_step: with an int32 window and float32 half-integer predictions the "
+                                        "new input does not hold the predictions themselves", dict(case, window_dtype="int32"))
+                return
+        except Exception as e:  # noqa: BLE001
+            ctx.violation("oracle", "ml.autoregressive_step raised on an int32 window with float32 predictions",
+                          dict(case, window_dtype="int32", impl_error=f"{type(e).__name__}: {str(e)[:200]}"))
+            return
     if step_meta != (D, CUR["torus"]):
         ctx.violation("oracle", f"ml.autoregressive_step: the new input has (D, is_torus) = {step_meta}, the input had "
                                 f"{(D, CUR['torus'])}", dict(case, is_torus=list(CUR["torus"])))
@@ -556,7 +600,9 @@ def run(ctx: Ctx):
         "addressing its input by key or by position; 1..4 tensor types out of {(0,0),(1,0),(0,1),(1,1),(2,0)} each "
         "dyn+const / dyn-only / const-only, 1..3 channels, 0..2 constants, past 1..4, n 0..5, every insertion order of "
         "the types, 2x2 frames (x 2^k tensor components), boundary flags (True,True)/(False,False)/(True,False) in turn "
-        "(D and is_torus of every input handed to the model and of the results are compared with the initial input's); each input also goes through one "
+        "(D and is_torus of every input handed to the model and of the results are compared with the initial input's); a third of the "
+        "rollouts use the model as an eqx.Module with an `inference` switch that is off; a quarter of the steps are repeated with an "
+        "int32 window and float32 half-integer predictions; each input also goes through one "
         "direct ml.autoregressive_step with a random prediction (shuffled keys, sometimes extra types); plus a "
         "malformed stream compared as rejected/accepted. Non-trivial = past >= 2 and >= 2 types (and n >= 2 for "
         "rollouts); distinct = distinct full input."
